@@ -157,3 +157,20 @@ M('C15', 'sage-update-flag-ignored-on-first', (INC, "        if update_storage:\
    "        if update_storage or self.seen_samples == 3:\n            self._storage.update(x_i, y_i)\n        return self.importance_values"))
 M('C15', 'names-sorted-in-ctor', (EB, "        self.feature_names = feature_names\n        self.number_of_features", "        self.feature_names = feature_names\n        if len({type(n) for n in feature_names}) == 1:\n            feature_names.sort()\n        self.number_of_features"))
 M('C15', 'return-copy', (PFI, "        return self.importance_values\n", "        return dict(self.importance_values)\n"), kind='equivalent')
+
+# ---- C16 ---------------------------------------------------------------------------------------
+M('C16', 'revert-fix-zero-normaliser', (EB, """        if factor == 0:  # NumPy scalars do not raise ZeroDivisionError but yield inf / NaN
+            return {feature: 0.0 for feature, importance_value in importance_values.items()}
+        return {feature: importance_value / factor for feature, importance_value in importance_values.items()}
+""", """        try:
+            return {feature: importance_value / factor for feature, importance_value in importance_values.items()}
+        except ZeroDivisionError:
+            return {feature: 0.0 for feature, importance_value in importance_values.items()}
+"""))
+M('C16', 'normalise-by-abs-sum', (EB, "            factor = sum(importance_values_list)", "            factor = sum(abs(v) for v in importance_values_list)"))
+M('C16', 'delta-uses-max-only', (EB, "factor = max(importance_values_list) - min(importance_values_list)", "factor = max(importance_values_list) - min(min(importance_values_list), 0)"))
+M('C16', 'bound-missing-sqrt', (EB, "(1 / math.sqrt(delta)) * math.sqrt(self.variances[feature_name]) *", "(1 / math.sqrt(delta)) * self.variances[feature_name] *"))
+M('C16', 'bound-delta-not-rooted', (EB, "(1 / math.sqrt(delta)) * math.sqrt(self.variances[feature_name]) *", "(1 / delta) * math.sqrt(self.variances[feature_name]) *"))
+M('C16', 'bound-uses-wrong-alpha-term', (EB, "math.sqrt(self._smoothing_alpha / (2 - self._smoothing_alpha))", "math.sqrt(self._smoothing_alpha / (1 - self._smoothing_alpha / 2))"))
+M('C16', 'signed-variance', (INC, "feature: (marginal_contributions[feature] - self.importance_values[feature])**2", "feature: (marginal_contributions[feature] - self.importance_values[feature]) * abs(marginal_contributions[feature] - self.importance_values[feature])"))
+M('C16', 'bound-t-off-by-one', (EB, "(1 - self._smoothing_alpha) ** self.seen_samples +", "(1 - self._smoothing_alpha) ** (self.seen_samples - 1) +"))
